@@ -7,7 +7,8 @@ from vf import core, lib, ref, spaces
 PID = "C02"
 LEVEL = "exploration"
 RULE = ("all team shapes with n<=4 (quick) / n<=5 (thorough) teams of 1..3 players plus three 8-team shapes with up to 8 players; "
-        "every slot gets a distinct (mu, sigma), name and id; every weak order (n<=5) / every tie pattern x generator "
+        "every slot gets a distinct (mu, sigma), name and id (and again with all players equal-valued, and with equal-valued twin teams in "
+        "non-adjacent slots, where only ids/names tell slots apart); every weak order (n<=5) / every tie pattern x generator "
         "permutation (n=8) x encodings {int ranks, float ranks, negative ranks, scores, omitted} x limit_sigma {off, "
         "model-level, per-call}; oracle: nesting, id and name per slot, each posterior inside the reference interval of "
         "THAT player, passed objects all untouched or all equal to the returned rating of the same slot; non-trivial = "
@@ -21,12 +22,20 @@ def slot_value(k, b):
     return (mu, sg)
 
 
-def game_for(shape, b):
+def game_for(shape, b, assign="distinct"):
     g, k = [], 0
     for sz in shape:
-        g.append([slot_value(k + j, b) for j in range(sz)])
+        if assign == "distinct":
+            g.append([slot_value(k + j, b) for j in range(sz)])
+        elif assign == "same":  # fresh default players everywhere: only ids and names tell the slots apart
+            g.append([(6 * b, 2 * b)] * sz)
+        else:  # "twins": every team is a copy of one of two value patterns, so equal-valued teams sit in non-adjacent slots
+            g.append([slot_value(j + (0 if len(g) % 2 == 0 else 3), b) for j in range(sz)])
         k += sz
     return g
+
+
+ASSIGN = ("distinct", "same", "twins")
 
 
 def enc_args(enc, r):
@@ -44,9 +53,9 @@ def enc_args(enc, r):
 LS_MODES = ("off", "model", "call")
 
 
-def eval_case(kind, shape, r, enc, ls):
+def eval_case(kind, shape, r, enc, ls, assign="distinct"):
     cfg = spaces.config("K5" if ls == "model" else "K0")
-    game = game_for(shape, cfg.beta)
+    game = game_for(shape, cfg.beta, assign)
     model = cfg.make(kind)
     names = [[f"t{i}p{j}" for j in range(len(T))] for i, T in enumerate(game)]
     teams = lib.ratings(model, game, names)
@@ -124,12 +133,12 @@ def run_unit(unit, ctx):
         _, _, bi, k, parts = unit
         shape = BIG[bi]
         for r in spaces.sharded(spaces.outcomes_big(8), k, parts):
-            for enc, ls in (("int", "off"), ("scores", "call")):
+            for enc, ls, assign in (("int", "off", "distinct"), ("scores", "call", "distinct"), ("int", "off", "twins")):
                 acc.evals += 1
                 acc.nontrivial += 1
-                msgs = eval_case(kind, shape, r, enc, ls)
+                msgs = eval_case(kind, shape, r, enc, ls, assign)
                 if msgs:
-                    acc.violation(PID, f"{kind}:big:{enc}:{ls}", msgs[0], {"kind": kind, "shape": list(shape), "r": list(r), "enc": enc, "ls": ls})
+                    acc.violation(PID, f"{kind}:big:{enc}:{ls}:{assign}", msgs[0], {"kind": kind, "shape": list(shape), "r": list(r), "enc": enc, "ls": ls, "assign": assign})
         acc.sample({"kind": kind, "shape": list(shape), "ranks": list(r), "enc": enc, "limit_sigma": ls})
         return acc
     _, n, k, parts = unit
@@ -138,21 +147,26 @@ def run_unit(unit, ctx):
         ident = list(r) == list(range(n))
         for enc in ("int", "float", "neg", "scores") + (("omitted",) if ident else ()):
             for ls in LS_MODES:
-                acc.evals += 1
-                if (not ident) or max(shape) > 1:
-                    acc.nontrivial += 1
-                msgs = eval_case(kind, shape, r, enc, ls)
-                if msgs:
-                    acc.violation(PID, f"{kind}:{enc}:{ls}:{'tie' if len(set(r)) < n else 'strict'}", msgs[0],
-                                  {"kind": kind, "shape": list(shape), "r": list(r), "enc": enc, "ls": ls})
+                for assign in (ASSIGN if enc in ("int", "scores") and ls != "model" else ASSIGN[:1]):
+                    acc.evals += 1
+                    if (not ident) or max(shape) > 1:
+                        acc.nontrivial += 1
+                    msgs = eval_case(kind, shape, r, enc, ls, assign)
+                    if msgs:
+                        acc.violation(PID, f"{kind}:{enc}:{ls}:{assign}:{'tie' if len(set(r)) < n else 'strict'}", msgs[0],
+                                      {"kind": kind, "shape": list(shape), "r": list(r), "enc": enc, "ls": ls, "assign": assign})
     acc.sample({"kind": kind, "shape": list(shape), "ranks": list(r), "enc": "scores", "limit_sigma": "call"})
     return acc
 
 
 def replay(case):
-    return eval_case(case["kind"], tuple(case["shape"]), tuple(case["r"]), case["enc"], case["ls"])
+    return eval_case(case["kind"], tuple(case["shape"]), tuple(case["r"]), case["enc"], case["ls"], case.get("assign", "distinct"))
 
 
 def main(ctx, t0):
     acc = core.run_units(units(ctx), run_unit, ctx)
     return core.finish(PID, ctx, LEVEL, acc, RULE, {"exhaustive": True, "max_teams_full_product": 5 if ctx.thorough else 4}, ASSUMPTIONS, t0)
+
+
+def replay_unit(unit, ctx):
+    return run_unit(unit, ctx)
